@@ -39,7 +39,7 @@ inductive FClass where
   | childMap   -- a map of nodes (Package.Files)
   | comment    -- *CommentGroup, []*CommentGroup: exempt
   | resolve    -- *Object, *Scope, Unresolved, Imports: derived resolver data, exempt
-  | opaque     -- not understood by the extractor: accepted by no checker
+  | opq     -- not understood by the extractor: accepted by no checker
   deriving DecidableEq, Repr
 
 /-- fields the property requires to survive the round trip -/
@@ -97,13 +97,13 @@ inductive GetArm where
   | read (field via : String) (guarded : Bool)  -- wrapper `via` around x.X.field; guarded = explicit nil test
   | none_                                       -- returns nil whatever the node holds
   | bad                                         -- badIndex(...) / run-time index panic
-  | opaque (why : String)
+  | opq (why : String)
   deriving DecidableEq, Repr
 
 inductive WriteKind where
   | conv (c : String)        -- x.X.f = To<c>(child)
   | nonNil (c : String)      -- x.X.f = To<c>(child) != nil       (derived flag)
-  | opaque (why : String)
+  | opq (why : String)
   deriving DecidableEq, Repr
 
 structure Write where
@@ -114,7 +114,7 @@ structure Write where
 inductive SetArm where
   | writes (ws : List Write)
   | bad
-  | opaque (why : String)
+  | opq (why : String)
   deriving DecidableEq, Repr
 
 structure Arm where
@@ -126,7 +126,7 @@ inductive Kind where
   | fixed                                                   -- constant Size, per-index arms
   | list (field getVia setConv appendConv : String)         -- Size = len(x.X.field), element access
   | slice (elemTy getVia setConv appendConv : String)       -- wrapper around a bare slice
-  | opaque (why : String)
+  | opq (why : String)
   deriving DecidableEq, Repr
 
 structure Wrapper where
@@ -212,7 +212,7 @@ def WriteKind.eval (gty : String) (k : WriteKind) (a : Ast) : Val :=
   match k with
   | .conv c => if convOk gty c then a.unwrap else poison
   | .nonNil c => if convOk gty c then (if a.unwrap = .zero then .zero else .atom "true") else poison
-  | .opaque _ => poison
+  | .opq _ => poison
 
 /-- static type the converted child must have for a write: the field's own type, except for a
     derived flag (`nonNil`), which is judged against the type of the field read by the same arm. -/
@@ -269,14 +269,14 @@ def rebuild (c : Ctx) (sd : StructDef) (w : Wrapper) (n : Node) : Node :=
   | .fixed => rebuildFixed c sd w n
   | .list f gv sc ac => (newNode w n).set f (rebuildList c (elemTyOf (sd.gtyOf f)) gv sc ac (n f))
   | .slice ety gv sc ac => (newNode w n).set "X" (rebuildList c ety gv sc ac (n "X"))
-  | .opaque _ => fun _ => poison
+  | .opq _ => fun _ => poison
 
 def sizeOf (w : Wrapper) (n : Node) : Nat :=
   match w.kind with
   | .fixed => w.size
   | .list f _ _ _ => (n f).elems.length
   | .slice _ _ _ _ => (n "X").elems.length
-  | .opaque _ => 0
+  | .opq _ => 0
 
 /-- the children `Get(0) .. Get(Size-1)` -/
 def children (c : Ctx) (sd : StructDef) (w : Wrapper) (n : Node) : List Ast :=
@@ -284,7 +284,7 @@ def children (c : Ctx) (sd : StructDef) (w : Wrapper) (n : Node) : List Ast :=
   | .fixed => w.arms.map (fun arm => evalGet c sd arm.get n)
   | .list f gv _ _ => (n f).elems.map (wrapElem c (elemTyOf (sd.gtyOf f)) gv)
   | .slice ety gv _ _ => (n "X").elems.map (wrapElem c ety gv)
-  | .opaque _ => []
+  | .opq _ => []
 
 /-- equality of field values up to nil-slice = empty-slice (both are the empty child list) -/
 def Val.equiv (a b : Val) : Prop := a = b ∨ (a.elems = [] ∧ b.elems = [] ∧ (a = .zero ∨ a = .list []) ∧ (b = .zero ∨ b = .list []))
@@ -293,8 +293,16 @@ instance (a b : Val) : Decidable (Val.equiv a b) := by unfold Val.equiv; infer_i
 
 /-! ## well-formedness of a table entry (decidable; checked on the regenerated table) -/
 
-/-- last write to field `f` performed by the arms, with the arm's get -/
-def lastWriter (f : String) : List Arm → Option (GetArm × WriteKind)
+/-- last write to field `f` inside one Set arm -/
+def lastWrite (f : String) : List Write → Option Write
+  | [] => none
+  | w :: rest =>
+    match lastWrite f rest with
+    | some r => some r
+    | none => if w.field = f then some w else none
+
+/-- last write to field `f` performed by `Set(0) .. Set(Size-1)`, with its arm -/
+def lastWriter (f : String) : List Arm → Option (Arm × Write)
   | [] => none
   | arm :: rest =>
     match lastWriter f rest with
@@ -302,19 +310,25 @@ def lastWriter (f : String) : List Arm → Option (GetArm × WriteKind)
     | none =>
       match arm.set with
       | .writes ws =>
-        match (ws.reverse.find? (·.field == f)) with
-        | some w => some (arm.get, w.kind)
+        match lastWrite f ws with
+        | some w => some (arm, w)
         | none => none
       | _ => none
 
-/-- field-level obligation for fixed wrappers -/
+def copied (w : Wrapper) (f : String) : Bool := w.newCopies.find? (·.1 == f) == some (f, f)
+
+/-- field-level obligation for fixed wrappers: the field is copied by New() and never written,
+    or its last writer is the Set(i) whose Get(i) reads the same field through a fitting converter,
+    or it is a flag derived from the child of that arm. -/
 def fieldOk (sd : StructDef) (w : Wrapper) (fd : FieldDef) : Bool :=
-  fd.cls != .opaque &&
+  fd.cls != .opq &&
   match lastWriter fd.name w.arms with
-  | none => w.newCopies.find? (·.1 == fd.name) == some (fd.name, fd.name)
-  | some (.read g _ _, .conv c) => g == fd.name && convOk fd.gty c
-  | some (.read g _ _, .nonNil c) => fd.cls == .flag && g != fd.name && convOk (sd.gtyOf g) c
-  | some _ => false
+  | none => copied w fd.name
+  | some (arm, wr) =>
+    match arm.get, wr.kind with
+    | .read g _ _, .conv c => g == fd.name && convOk (sd.gtyOf fd.name) c
+    | .read g _ _, .nonNil c => fd.cls == .flag && convOk (sd.gtyOf g) c
+    | _, _ => false
 
 /-- derived invariants a node must satisfy (go/ast's own: `Slice3 ↔ Max != nil`) -/
 def derivedPairs (w : Wrapper) : List (String × String) :=
@@ -329,7 +343,7 @@ def DerivedOK (w : Wrapper) (n : Node) : Prop := ∀ p ∈ derivedPairs w, n p.1
 
 def armShapeOk (a : Arm) : Bool :=
   (match a.get with | .read _ _ _ => true | _ => false) &&
-  (match a.set with | .writes ws => ws.all (fun w => match w.kind with | .opaque _ => false | _ => true) | _ => false)
+  (match a.set with | .writes ws => ws.all (fun w => match w.kind with | .opq _ => false | _ => true) | _ => false)
 
 def readField : GetArm → String
   | .read f _ _ => f
@@ -346,15 +360,9 @@ def sizeOk (sd : StructDef) (w : Wrapper) : Bool :=
                         | none => false) &&
   w.oorGet == .bad && w.oorSet == .bad
 
-/-- every child field of the struct is reachable through some index -/
-def childrenCovered (sd : StructDef) (w : Wrapper) : Bool :=
-  sd.fields.all (fun fd => !(fd.cls == .child || fd.cls == .childList || fd.cls == .childMap) ||
-    (w.arms.any (fun a => readField a.get == fd.name) ||
-      w.newCopies.find? (·.1 == fd.name) == some (fd.name, fd.name)))
-
 def opReadsOk (sd : StructDef) (w : Wrapper) : Bool :=
   w.opReads.all (fun f => match sd.field? f with
-    | some fd => fd.cls == .pos && w.newCopies.find? (·.1 == f) == some (f, f) || fd.cls.relevant
+    | some fd => fd.cls == .pos && copied w f || fd.cls.relevant
     | none => false)
 
 def listKindOk (sd : StructDef) (w : Wrapper) : Bool :=
@@ -364,18 +372,22 @@ def listKindOk (sd : StructDef) (w : Wrapper) : Bool :=
     (match sd.field? f with | some fd => fd.cls == .childList | none => false) &&
     (gv == "ToAst") && convOk ety sc && convOk ety ac &&
     (w.newCopies.find? (·.1 == f)).isNone
-  | .slice ety gv sc ac => (gv == "ToAst" || gv == "self") && convOk ety sc && convOk ety ac && w.newCopies.isEmpty
+  | .slice ety gv sc ac =>
+    (match sd.field? "X" with | some fd => fd.cls == .childList | none => false) &&
+    (gv == "ToAst" || gv == "self") && convOk ety sc && convOk ety ac && w.newCopies.isEmpty
   | _ => false
+
+/-- per-field obligation, by wrapper kind -/
+def fieldGood (sd : StructDef) (w : Wrapper) (fd : FieldDef) : Bool :=
+  match w.kind with
+  | .fixed => fieldOk sd w fd
+  | .list f _ _ _ => fd.name == f || (fd.cls != .opq && copied w fd.name)
+  | .slice _ _ _ _ => fd.name == "X"
+  | .opq _ => false
 
 /-- relevant fields of a wrapper that violate the field obligation -/
 def badFields (sd : StructDef) (w : Wrapper) : List String :=
-  match w.kind with
-  | .fixed => (sd.fields.filter (fun fd => fd.cls.relevant && !fieldOk sd w fd)).map (·.name)
-  | .list f _ _ _ =>
-    (sd.fields.filter (fun fd => fd.cls.relevant && fd.name != f &&
-        !(fd.cls != .opaque && w.newCopies.find? (·.1 == fd.name) == some (fd.name, fd.name)))).map (·.name)
-  | .slice _ _ _ _ => []
-  | .opaque _ => ["<opaque wrapper>"]
+  (sd.fields.filter (fun fd => fd.cls.relevant && !fieldGood sd w fd)).map (·.name)
 
 /-- structural part of well-formedness (everything except the per-field obligation) -/
 def shapeOk (sd : StructDef) (w : Wrapper) : Bool :=
@@ -384,13 +396,13 @@ def shapeOk (sd : StructDef) (w : Wrapper) : Bool :=
   | .fixed => sizeOk sd w && opReadsOk sd w
   | .list _ _ _ _ => listKindOk sd w && opReadsOk sd w
   | .slice _ _ _ _ => listKindOk sd w
-  | .opaque _ => false
+  | .opq _ => false
 
 def wrapperWF (sd : StructDef) (w : Wrapper) : Bool := shapeOk sd w && (badFields sd w).isEmpty
 
 /-- position fields not carried over by New() (informational: positions are exempt) -/
 def droppedPositions (sd : StructDef) (w : Wrapper) : List String :=
-  (sd.fields.filter (fun fd => fd.cls == .pos && w.newCopies.find? (·.1 == fd.name) != some (fd.name, fd.name))).map (·.name)
+  (sd.fields.filter (fun fd => fd.cls == .pos && !copied w fd.name)).map (·.name)
 
 /-! ## ToAst / ToNode -/
 
